@@ -2670,6 +2670,57 @@ def site_evict_clock_policy(fns):
     return ob.result(it, witness="c16_eviction_stops_at_low_watermark")
 
 
+def site_cache_clear(fns):
+    f = mir.find(fns, "::clear", "src/core/cache.rs")
+    ob = Ob("site_cache_clear_accounting", "ClockCache::clear, every path with the bucket loop unrolled once: it runs under the eviction lock; for each bucket the sizes of THIS bucket's entries "
+            "are summed (closure returns the entry's recorded size) while the bucket's write lock is held, the bucket is emptied under the same lock, and the global counter is decreased by "
+            "exactly that sum, once – after clear the reported memory still equals the total size of the entries held (none)", "bucket loop unrolled once; iterator adaptors summarised", f)
+    it = Interp(f, loop_bound=1, pure=PURE)
+    reached = 0
+    for p in it.run():
+        ob.paths += 1
+        if p.status not in ("return", "truncated"):
+            continue
+        lk = events(p, "Mutex::lock")
+        ob.must_hold(len(lk) == 1 and idx_of(p, lk[0]) == min(idx_of(p, e) for e in p.events if e.kind == "call"), "the eviction lock is taken first")
+        wr = events(p, "RwLock::write")
+        sums = [e for e in p.events if e.kind == "call" and e.callee.endswith("::sum")]
+        clr = events(p, "Vec::clear")
+        subs = [e for e in events(p, "Atomic::fetch_sub") if z3.is_bv(e.args[1])]
+        if not wr:
+            ob.must_hold(not subs and not clr, "nothing is subtracted or emptied without visiting a bucket")
+            continue
+        reached += 1
+        if not ob.must_hold(len(wr) == len(sums) == len(clr) == len(subs), "per bucket: one lock, one sum, one clear, one subtraction"):
+            continue
+        for w, sm, c, sb in zip(wr, sums, clr, subs):
+            gdrop = [e for e in p.events if e.kind == "drop" and "RwLockWriteGuard" in e.callee and z3.is_expr(e.args[0]) and z3.eq(it.as_u(e.args[0]), it.as_u(w.ret)) and idx_of(p, e) > idx_of(p, w)]
+            ob.must_hold(idx_of(p, w) < idx_of(p, sm) < idx_of(p, c) and bool(gdrop) and idx_of(p, c) < idx_of(p, gdrop[0]), "the bucket is summed and emptied under its own write lock")
+            ob.must_hold(z3.eq(it.as_u(c.args[0]), it.as_u(w.ret)), "the emptied vector is the locked bucket")
+            mp = [e for e in p.events if e.kind == "call" and e.callee.endswith("Iterator>::map") and idx_of(p, w) < idx_of(p, e) < idx_of(p, sm)]
+            okc = False
+            if mp:
+                cf = _closure_of(mp[0].callee + " " + " ".join(str(a) for a in mp[0].args))
+                itr = [e for e in p.events if e.kind == "call" and e.callee.endswith("]>::iter") and z3.eq(it.as_u(e.ret), it.as_u(mp[0].args[0]))]
+                ob.must_hold(bool(itr) and z3.eq(it.as_u(itr[0].args[0]), it.as_u(w.ret)) and z3.eq(it.as_u(sm.args[0]), it.as_u(mp[0].ret)), "the sum runs over the locked bucket's entries")
+                if cf is not None:
+                    sub = Interp(cf, ctx=it.ctx, loop_bound=1, pure=PURE)
+                    en = z3.Const("an_entry", U)
+
+                    def cinit(_it, sst, _cf=cf, _en=en):
+                        sst["env"][_cf.args[1]] = _en
+                    rs = [r for r in sub.run(cinit) if r.status == "return"]
+                    if len(rs) == 1 and z3.is_bv(rs[0].ret):
+                        # the same field evict_entries/remove_entry subtract: CacheEntry.size
+                        ev = mir.find(fns, "::evict_entries", "src/core/cache.rs")
+                        m_ = re.search(r"copy \(_\d+\.(\d+): usize\)", ev.text)
+                        okc = m_ is not None and z3.eq(rs[0].ret, it.ctx.uf("proj__%s" % m_.group(1), [U], z3.BitVecSort(64))(en))
+            ob.must_hold(okc, "each entry contributes its recorded size (the field eviction subtracts)")
+            ob.need(it, sb.pc, sb.args[1] == sm.ret, "the counter is decreased by exactly this bucket's sum")
+    ob.must_hold(reached >= 1, "a bucket iteration was reached")
+    return ob.result(it, witness="c16_cache_replace_accounting+c16_eviction_stops_at_low_watermark")
+
+
 # ============================================================================ io.rs: journaled retirement and journal/metadata slot protocol
 IO_HINT = "src/storage/io.rs"
 
@@ -2923,7 +2974,7 @@ def site_flush_pending_deletions(fns):
 
 # ============================================================================ C16: cache accounting deltas
 def c16(fns, tier, env):
-    return finalize([site_cache_insert(fns), site_cache_remove(fns), site_cache_lookups_tagged(fns), site_evict_running_usage(fns), site_evict_clock_policy(fns), site_compare_and_swap(fns), site_resolve_expiry(fns)], env)
+    return finalize([site_cache_insert(fns), site_cache_remove(fns), site_cache_lookups_tagged(fns), site_evict_running_usage(fns), site_evict_clock_policy(fns), site_cache_clear(fns), site_compare_and_swap(fns), site_resolve_expiry(fns)], env)
 
 
 def c05(fns, tier, env):
